@@ -101,6 +101,20 @@ func c15Scenario() *explore.Scenario {
 				}
 				what += " prefilled-sni"
 			}
+			// the documented inspect-then-connect order: an explicit BuildHandshakeState before Handshake
+			// (which marshals, and for ECH encrypts, the hello a second time)
+			if x.Choose("prebuild", 2) == 1 {
+				inner := prep
+				prep = func(u *tls.UConn) error {
+					if inner != nil {
+						if err := inner(u); err != nil {
+							return err
+						}
+					}
+					return u.BuildHandshakeState()
+				}
+				what += " prebuilt"
+			}
 			hs := peer.Run(ccfg, id, scfg, peer.Opts{Prepare: prep, Echo: true, KeepOpen: true})
 			defer hs.Finish()
 			r.Nontrivial = true
@@ -194,7 +208,7 @@ func c15Scenarios(thorough bool) []*explore.Scenario {
 func init() {
 	register(&Prop{ID: "C15", Level: "exploration", Variant: "A", Scenarios: c15Scenarios,
 		Run: func(c *explore.Check, thorough bool) {
-			c.Rule = "every parrot with a real ECH extension and HelloGolang x server {accept, accept after HRR, reject with retry configs, reject without} x ECH config variants (config id 7/0/255, AEAD list all/AES-128-GCM/ChaCha20, max name length 32/0/255, public name 1 B / 55 B; <=2 deviations quick, full product thorough) x secret name {short, 253 B}: the secret name occurs nowhere in the client's byte stream, every outer hello is valid with SNI == public name and an outer ECH extension of the config id, accepting servers complete with ECHAccepted and ServerName on both sides and the decrypted inner hello naming the secret, rejecting servers yield ECHRejectionError with exactly the server's retry configs. distinct = case"
+			c.Rule = "every parrot with a real ECH extension and HelloGolang x server {accept, accept after HRR, reject with retry configs, reject without} x ECH config variants (config id 7/0/255, AEAD list all/AES-128-GCM/ChaCha20, max name length 32/0/255, public name 1 B / 55 B; <=2 deviations quick, full product thorough) x secret name {short, 253 B} x {Handshake alone, BuildHandshakeState then Handshake}: the secret name occurs nowhere in the client's byte stream, every outer hello is valid with SNI == public name and an outer ECH extension of the config id, accepting servers complete with ECHAccepted and ServerName on both sides and the decrypted inner hello naming the secret, rejecting servers yield ECHRejectionError with exactly the server's retry configs. distinct = case"
 			c.Assumptions = []string{"inner/outer extension expansion is judged through the server's transcript check (a wrong expansion fails Finished)", "certificate verification disabled here (C14 covers it)"}
 			runAll(c, c15Scenarios(thorough), 0)
 			c.Gate(c.Total.Counters["accepted"] > 30, "non-vacuity: %d accepted", c.Total.Counters["accepted"])
